@@ -40,9 +40,14 @@ def cleanup_tmp_root() -> None:
 @contextlib.contextmanager
 def workdir() -> Iterator[str]:
     d = tempfile.mkdtemp(prefix="c-", dir=tmp_root())
+    # temporary files the code under test creates on its own (kconfgen leaves a '<tmp>.old' behind for every 'config' output)
+    # land in the case directory and disappear with it
+    prev = tempfile.tempdir
+    tempfile.tempdir = d
     try:
         yield d
     finally:
+        tempfile.tempdir = prev
         shutil.rmtree(d, ignore_errors=True)
 
 
